@@ -1,0 +1,7 @@
+//go:build !verif
+// +build !verif
+
+package shmipc
+
+// verifTrace is a no-op without the build tag verif (see verif_on.go).
+func verifTrace(ev string, obj interface{}, s *Session, a, b int64) {}
